@@ -41,6 +41,7 @@ type Node struct {
 	Name string  `json:"n,omitempty"`
 	Val  *V      `json:"v,omitempty"`
 	Args []*Node `json:"a,omitempty"`
+	Raw  string  `json:"r,omitempty"` // how an integer literal is spelled in the source, when not canonically (007, +5)
 }
 
 func Lit(v V) *Node                    { return &Node{K: KLit, Val: &v} }
@@ -53,7 +54,7 @@ func (n *Node) Clone() *Node {
 	if n == nil {
 		return nil
 	}
-	c := &Node{K: n.K, Name: n.Name}
+	c := &Node{K: n.K, Name: n.Name, Raw: n.Raw}
 	if n.Val != nil {
 		v := *n.Val
 		v.IL = append([]int64(nil), v.IL...)
@@ -114,7 +115,11 @@ func (n *Node) Src() string {
 func (n *Node) src(sb *strings.Builder) {
 	switch n.K {
 	case KLit:
-		litSrc(sb, *n.Val)
+		if n.Raw != "" {
+			sb.WriteString(n.Raw)
+		} else {
+			litSrc(sb, *n.Val)
+		}
 	case KConst, KVar:
 		sb.WriteString(n.Name)
 	case KOp:
